@@ -40,3 +40,210 @@ package tss
 //@ func Edwards
 //@   props C06 C17
 //@   ensures result != nil && isedw(result)
+
+// ----- params.go, peers.go -----
+
+//@ define wfParams(p) = p != nil && p.ec != nil && p.partyID != nil && p.partyID.MessageWrapper_PartyID != nil && p.parties != nil && p.rand != nil && p.partialKeyRand != nil
+//@ define idsOf(p) = p.parties.partyIDs
+// wfIDs: party ids are sorted with Index = position and carry their wire identity
+//@ define wfIDs(ids) = forall k in 0..len(ids) :: (ids[k] != nil && ids[k].MessageWrapper_PartyID != nil && ids[k].Index == k)
+
+//@ func (*Parameters).EC
+//@   props C06 C08
+//@   requires params != nil
+//@   ensures result == params.ec
+//@ func (*Parameters).Parties
+//@   props C06 C08
+//@   requires params != nil
+//@   ensures result == params.parties
+//@ func (*Parameters).PartyID
+//@   props C06 C08
+//@   requires params != nil
+//@   ensures result == params.partyID
+//@ func (*Parameters).PartyCount
+//@   props C06 C08
+//@   requires params != nil
+//@   ensures result == params.partyCount
+//@ func (*Parameters).Threshold
+//@   props C06 C08
+//@   requires params != nil
+//@   ensures result == params.threshold
+//@ func (*Parameters).NoProofMod
+//@   props C06
+//@   requires params != nil
+//@   ensures result == params.noProofMod
+//@ func (*Parameters).NoProofFac
+//@   props C06
+//@   requires params != nil
+//@   ensures result == params.noProofFac
+//@ func (*Parameters).Rand
+//@   props C06 C20
+//@   requires params != nil
+//@   ensures result == params.rand
+//@ func (*Parameters).PartialKeyRand
+//@   props C06
+//@   requires params != nil
+//@   ensures result == params.partialKeyRand
+//@ func (*Parameters).Concurrency
+//@   props C06
+//@   requires params != nil
+//@   ensures result == params.concurrency
+
+//@ func (*PeerContext).IDs
+//@   props C06 C08
+//@   requires p2pCtx != nil
+//@   ensures result == p2pCtx.partyIDs
+
+//@ func (*ReSharingParameters).OldParties
+//@   props C06 C04
+//@   requires rgParams != nil && rgParams.Parameters != nil
+//@   ensures result == rgParams.Parameters.parties
+//@ func (*ReSharingParameters).NewParties
+//@   props C06 C04
+//@   requires rgParams != nil
+//@   ensures result == rgParams.newParties
+//@ func (*ReSharingParameters).OldPartyCount
+//@   props C06 C04
+//@   requires rgParams != nil && rgParams.Parameters != nil
+//@   ensures result == rgParams.Parameters.partyCount
+//@ func (*ReSharingParameters).NewPartyCount
+//@   props C06 C04
+//@   requires rgParams != nil
+//@   ensures result == rgParams.newPartyCount
+//@ func (*ReSharingParameters).NewThreshold
+//@   props C06 C04
+//@   requires rgParams != nil
+//@   ensures result == rgParams.newThreshold
+
+// ----- party_id.go -----
+
+//@ func (*PartyID).ValidateBasic
+//@   props C06
+//@   requires pid != nil ==> pid.MessageWrapper_PartyID != nil
+//@   ensures result <==> (pid != nil && !isnil(pid.MessageWrapper_PartyID.Key) && 0 <= pid.Index)
+
+//@ func (*MessageWrapper_PartyID).KeyInt
+//@   props C06 C08
+//@   requires mpid != nil
+//@   ensures result != nil && fresh(result) && val(result) == beint(bytes(mpid.Key)) && val(result) >= 0
+
+//@ func (SortedPartyIDs).Len
+//@   props C06
+//@   ensures result == len(spids)
+
+//@ func (SortedPartyIDs).Keys
+//@   props C06 C12
+//@   requires forall k in 0..len(spids) :: (spids[k] != nil && spids[k].MessageWrapper_PartyID != nil)
+//@   ensures fresh(result) && len(result) == len(spids)
+//@   ensures forall k in 0..len(spids) :: (result[k] != nil && fresh(result[k]) && val(result[k]) == beint(bytes(spids[k].MessageWrapper_PartyID.Key)))
+//@   loop 0 invariant len(ids) == len(spids) && fresh(ids)
+//@   loop 0 invariant forall k in 0..$iter :: (ids[k] != nil && fresh(ids[k]) && allocated(ids[k]) && val(ids[k]) == beint(bytes(spids[k].MessageWrapper_PartyID.Key)))
+
+// ----- error.go -----
+
+//@ func NewError
+//@   props C05 C06
+//@   ensures result != nil && fresh(result) && result.cause == err && result.task == task && result.round == round && result.victim == victim && result.culprits == culprits
+
+//@ func (*Error).Culprits
+//@   props C05 C06
+//@   requires err != nil
+//@   ensures result == err.culprits
+//@ func (*Error).Victim
+//@   props C05 C06
+//@   requires err != nil
+//@   ensures result == err.victim
+//@ func (*Error).Cause
+//@   props C06
+//@   requires err != nil
+//@   ensures result == err.cause
+//@ func (*Error).Round
+//@   props C06
+//@   requires err != nil
+//@   ensures result == err.round
+
+// ----- message.go, wire.go -----
+// msgcontent / msgbcast / msgfrom / msgvalid (prelude) are the observable
+// attributes of a tss.ParsedMessage value; the interface methods return them
+// and the only implementation, *MessageImpl, is verified against its fields.
+
+//@ func (Message).IsBroadcast
+//@   ensures result == msgbcast(self)
+//@ func (Message).GetFrom
+//@   ensures result == msgfrom(self)
+//@ func (Message).String
+//@   pure
+//@ func (Message).Type
+//@   pure
+//@ func (ParsedMessage).IsBroadcast
+//@   ensures result == msgbcast(self)
+//@ func (ParsedMessage).GetFrom
+//@   ensures result == msgfrom(self)
+//@ func (ParsedMessage).Content
+//@   ensures result == msgcontent(self)
+//@ func (ParsedMessage).ValidateBasic
+//@   ensures result == msgvalid(self)
+//@ func (ParsedMessage).String
+//@   pure
+//@ func (ParsedMessage).Type
+//@   pure
+//@ func (MessageContent).ValidateBasic
+//@   ensures result == cvalid(self)
+
+//@ func NewMessage
+//@   props C08 C06
+//@   ensures [C08.routing-preserved] istype(result, "*tss.MessageImpl") && fresh(cast(result, "*tss.MessageImpl")) && cast(result, "*tss.MessageImpl").MessageRouting.From == meta.From && cast(result, "*tss.MessageImpl").MessageRouting.To == meta.To && cast(result, "*tss.MessageImpl").MessageRouting.IsBroadcast == meta.IsBroadcast && cast(result, "*tss.MessageImpl").MessageRouting.IsToOldCommittee == meta.IsToOldCommittee && cast(result, "*tss.MessageImpl").MessageRouting.IsToOldAndNewCommittees == meta.IsToOldAndNewCommittees
+//@   ensures cast(result, "*tss.MessageImpl").content == content && cast(result, "*tss.MessageImpl").wire == wire
+
+//@ func NewMessageWrapper
+//@   props C08 C06
+//@   requires [sender-known] routing.From != nil
+//@   requires forall k in 0..len(routing.To) :: routing.To[k] != nil
+//@   ensures [C08.wire-flags-equal-routing] result != nil && fresh(result) && result.IsBroadcast == routing.IsBroadcast && result.IsToOldCommittee == routing.IsToOldCommittee && result.IsToOldAndNewCommittees == routing.IsToOldAndNewCommittees && result.From == routing.From.MessageWrapper_PartyID
+//@   ensures len(result.To) == len(routing.To)
+//@   loop 0 invariant len(to) == len(routing.To) && fresh(to)
+
+//@ func (*MessageImpl).GetTo
+//@   props C08 C06
+//@   requires mm != nil
+//@   ensures result == mm.MessageRouting.To
+//@ func (*MessageImpl).GetFrom
+//@   props C08 C06
+//@   requires mm != nil
+//@   ensures result == mm.MessageRouting.From
+//@ func (*MessageImpl).IsBroadcast
+//@   props C08 C06
+//@   requires mm != nil && mm.wire != nil
+//@   ensures [C08.broadcast-flag-is-the-wire-flag] result == mm.wire.IsBroadcast
+//@ func (*MessageImpl).IsToOldCommittee
+//@   props C08 C06
+//@   requires mm != nil && mm.wire != nil
+//@   ensures result == mm.wire.IsToOldCommittee
+//@ func (*MessageImpl).IsToOldAndNewCommittees
+//@   props C08 C06
+//@   requires mm != nil && mm.wire != nil
+//@   ensures result == mm.wire.IsToOldAndNewCommittees
+//@ func (*MessageImpl).WireMsg
+//@   props C08 C06
+//@   requires mm != nil
+//@   ensures result == mm.wire
+//@ func (*MessageImpl).Content
+//@   props C08 C06
+//@   requires mm != nil
+//@   ensures result == mm.content
+//@ func (*MessageImpl).ValidateBasic
+//@   props C06
+//@   requires mm != nil && mm.content != nil
+//@   ensures result == cvalid(mm.content)
+
+//@ func ParseWireMessage
+//@   props C08 C06
+//@   requires [sender-known] from != nil
+//@   ensures result1 != nil ==> isnil(result0)
+//@   ensures [C08.parsed-message-carries-transport-facts] result1 == nil ==> (istype(result0, "*tss.MessageImpl") && cast(result0, "*tss.MessageImpl").MessageRouting.From == from && cast(result0, "*tss.MessageImpl").MessageRouting.IsBroadcast == isBroadcast && cast(result0, "*tss.MessageImpl").wire != nil && cast(result0, "*tss.MessageImpl").wire.IsBroadcast == isBroadcast && !isnil(cast(result0, "*tss.MessageImpl").content))
+
+//@ func parseWrappedMessage
+//@   props C08 C06
+//@   requires wire != nil
+//@   ensures result1 != nil ==> isnil(result0)
+//@   ensures result1 == nil ==> (istype(result0, "*tss.MessageImpl") && cast(result0, "*tss.MessageImpl").MessageRouting.From == from && cast(result0, "*tss.MessageImpl").MessageRouting.IsBroadcast == wire.IsBroadcast && cast(result0, "*tss.MessageImpl").wire == wire && !isnil(cast(result0, "*tss.MessageImpl").content))
